@@ -17,6 +17,8 @@ from . import guards as G
 ASCII_PREDS = ("is_digit", "is_ascii_digit", "is_ascii_hexdigit", "is_ascii_alphabetic", "is_ascii_alphanumeric", "is_ascii_whitespace",
                "is_ascii_punctuation", "is_ascii_uppercase", "is_ascii_lowercase", "is_ascii_graphic", "is_ascii")
 SUFFIX_CALLS = ("sparql_skip_ws", "trim_start", "trim_start_matches", "trim_left", "trim_left_matches")
+PREFIX_CALLS = ("trim_end", "trim_end_matches", "trim_right", "trim_right_matches")
+FIRST_PIECE_ITERS = ("lines", "split", "split_terminator", "split_inclusive", "splitn")
 OPMAP = {"AddWithOverflow": "Add", "SubWithOverflow": "Sub", "MulWithOverflow": "Mul", "AddUnchecked": "Add", "SubUnchecked": "Sub"}
 
 
@@ -354,6 +356,52 @@ class Prover:
                 return all(self.is_suffix(d[0], s, depth + 1) for d in ds)
         return False
 
+    def is_prefix(self, t, s, depth=0):
+        """t is s[..x] for some boundary x of s (possibly unknown): its length is a boundary of s"""
+        if depth > 10 or t is None:
+            return False
+        t, s = self.str_norm(t), self.str_norm(s)
+        if strip(t) == strip(s):
+            return True
+        if t[0] == "pre":
+            return self.is_prefix(t[1], s, depth + 1)
+        if t[0] == "call" and t[1] in PREFIX_CALLS and t[3]:
+            return self.is_prefix(t[3][0], s, depth + 1)
+        if t[0] == "some" and t[1][0] == "call" and t[1][1] == "strip_suffix" and t[1][3]:
+            return self.is_prefix(t[1][3][0], s, depth + 1)
+        # the first piece of a splitting iterator (`x.lines().next()`, `x.split(p).next()`): a prefix of x, or "" by default
+        if t[0] == "call" and t[1] in ("unwrap_or_default", "unwrap_or") and t[3]:
+            if t[1] == "unwrap_or" and not (len(t[3]) == 2 and t[3][1] == ("str", "")):
+                return False
+            return self._first_piece(t[3][0], s, depth)
+        if t[0] == "some":
+            return self._first_piece(t[1], s, depth)
+        if t[0] == "fld" and t[2] == 0 and t[1][0] == "some" and t[1][1][0] == "call" and t[1][1][1] == "split_once" and t[1][1][3]:
+            return self.is_prefix(t[1][1][3][0], s, depth + 1)
+        return False
+
+    def _first_piece(self, opt, s, depth):
+        if opt[0] != "call" or opt[1] != "next" or not opt[3] or len(opt) < 5:
+            return False
+        it = opt[3][0]
+        if not (it[0] == "call" and it[1] in FIRST_PIECE_ITERS and it[3] and self.is_prefix(it[3][0], s, depth + 1)):
+            return False
+        # the iterator is consumed by this `next` only (a second `next` on it yields a later piece under the same expression)
+        b = self.b
+        nx = [c for c in b.calls() if c.bb == opt[4] and c.name() == "next"]
+        if len(nx) != 1 or not nx[0].args:
+            return False
+        root = b.alias_root(nx[0].args[0])
+        if root is None:
+            return False
+        users = [c for c in b.calls() if any(b.alias_root(a) == root for a in c.args if F.op_place(a) is not None)]
+        if users != nx:
+            return False
+        created = [d[1] for d in b.defs().get(root, []) if d[0] != "arg"]
+        if len(created) != 1:
+            return False
+        return {h for h, _ in b.loops_containing(created[0])} == {h for h, _ in b.loops_containing(opt[4])}
+
     def _is_parser_call(self, e):
         pk = e[2] or ""
         nm = e[1] or ""
@@ -397,6 +445,8 @@ class Prover:
                 # len of a prefix of s
                 if t[0] == "pre" and self.same(t[1], s):
                     return self.bd(s, t[2], bb, assume, depth + 1)
+                if self.is_prefix(t, s):
+                    return True
                 if t[0] == "str" and self.guard_starts_with(s, ("int", 0), t[1], bb):
                     return True
                 if self.guard_prefix_expr(s, t, bb):
